@@ -15,6 +15,9 @@ func Remainder(left, right value.Value) error {
 		switch right.Type() {
 		case value.IntegerType: // INTEGER %= INTEGER
 			rv := value.Unwrap[*value.Integer](right)
+			if rv.Value == 0 {
+				return errors.WithStack(fmt.Errorf("division by zero"))
+			}
 			// nolint: gocritic
 			if lv.IsPositiveInf || rv.IsPositiveInf {
 				lv.Value = 0
@@ -30,6 +33,10 @@ func Remainder(left, right value.Value) error {
 				return errors.WithStack(fmt.Errorf("FLOAT literal could not remainder to INTEGER"))
 			}
 			rv := value.Unwrap[*value.Float](right)
+			// divisor is truncated to integer, e.g 0.5 will be zero
+			if int64(rv.Value) == 0 {
+				return errors.WithStack(fmt.Errorf("division by zero"))
+			}
 			// nolint: gocritic
 			if lv.IsPositiveInf || rv.IsPositiveInf {
 				lv.Value = 0
@@ -48,6 +55,9 @@ func Remainder(left, right value.Value) error {
 		switch right.Type() {
 		case value.IntegerType: // FLOAT %= INTEGER
 			rv := value.Unwrap[*value.Integer](right)
+			if rv.Value == 0 {
+				return errors.WithStack(fmt.Errorf("division by zero"))
+			}
 			// nolint: gocritic
 			if lv.IsPositiveInf || rv.IsPositiveInf {
 				lv.Value = 0
@@ -60,6 +70,10 @@ func Remainder(left, right value.Value) error {
 			}
 		case value.FloatType: // FLOAT %= FLOAT
 			rv := value.Unwrap[*value.Float](right)
+			// divisor is truncated to integer, e.g 0.5 will be zero
+			if int64(rv.Value) == 0 {
+				return errors.WithStack(fmt.Errorf("division by zero"))
+			}
 			// nolint: gocritic
 			if lv.IsPositiveInf || rv.IsPositiveInf {
 				lv.Value = 0
@@ -78,10 +92,18 @@ func Remainder(left, right value.Value) error {
 		switch right.Type() {
 		case value.IntegerType: // RTIME %= INTEGER
 			rv := value.Unwrap[*value.Integer](right)
-			lv.Value %= (time.Duration(rv.Value) * time.Second)
+			divisor := time.Duration(rv.Value) * time.Second
+			if divisor == 0 {
+				return errors.WithStack(fmt.Errorf("division by zero"))
+			}
+			lv.Value %= divisor
 		case value.FloatType: // RTIME %= FLOAT
 			rv := value.Unwrap[*value.Float](right)
-			lv.Value %= (time.Duration(rv.Value) * time.Second)
+			divisor := time.Duration(rv.Value) * time.Second
+			if divisor == 0 {
+				return errors.WithStack(fmt.Errorf("division by zero"))
+			}
+			lv.Value %= divisor
 		default:
 			return errors.WithStack(fmt.Errorf("invalid division RTIME type, got %s", right.Type()))
 		}
